@@ -10,6 +10,60 @@ GUARD = 'KOPF_VERIF_TRACE'
 
 # property id -> (technique, level text, level note, design ref)
 CHECKS: dict[str, dict[str, str]] = {
+    'C02': dict(
+        technique='explicit TLA+ model of the closed loop of one object (Handling.tla) checked exhaustively with TLC; traces of the real '
+                  'kopf.operator() in the world simulator validated by TLC against the specification (Trace_Handling.tla)',
+        text='recorded progress governs invocation: InvokeGoverned (record in the processed view: not finished, retry = recorded attempts, delay elapsed), CloseExactlyWhenDone, AtMostOnce with all doors closed; the negative configuration shows a kill re-opens the door' ' -- checked by TLC on Handling.tla for every interleaving of the bounded configurations, and on every state of '
+             'the behaviour that explains each recorded trace of the real operator (seeded random scenarios of profile progress + errors; every '
+             'PATCH is compared with the specification\'s server object field by field, virtual time is bound by urgency).',
+        note='one object, one operator at a time; handlers are coroutines with scripted outcomes; sub-handlers, handler timeouts and '
+             'on.event results are not yet in the model; known findings are excused only through the family predicates of Handling.tla',
+        ref='DESIGN.md 4/C02'),
+    'C03': dict(
+        technique='explicit TLA+ model of the closed loop of one object (Handling.tla) checked exhaustively with TLC; traces of the real '
+                  'kopf.operator() in the world simulator validated by TLC against the specification (Trace_Handling.tla)',
+        text='TerminalConverged on configurations without doors / with kills, stops, restarts, re-listings; Termination under weak fairness; witness configurations for the known families F8, F20, F21, F22; histories run to quiescence: final state Converged (or excused by a known family) and no PATCH in the tail window' ' -- checked by TLC on Handling.tla for every interleaving of the bounded configurations, and on every state of '
+             'the behaviour that explains each recorded trace of the real operator (seeded random scenarios of profile converge; every '
+             'PATCH is compared with the specification\'s server object field by field, virtual time is bound by urgency).',
+        note='one object, one operator at a time; handlers are coroutines with scripted outcomes; sub-handlers, handler timeouts and '
+             'on.event results are not yet in the model; known findings are excused only through the family predicates of Handling.tla',
+        ref='DESIGN.md 4/C03'),
+    'C06': dict(
+        technique='explicit TLA+ model of the closed loop of one object (Handling.tla) checked exhaustively with TLC; traces of the real '
+                  'kopf.operator() in the world simulator validated by TLC against the specification (Trace_Handling.tla)',
+        text='NeverEarly (the finalizer is withdrawn from a deleting object only after every mandatory matching deletion handler has finished), ForeignUntouched, FollowsMatching, with foreign finalizer edits, toggles, deletions and 422 conflicts' ' -- checked by TLC on Handling.tla for every interleaving of the bounded configurations, and on every state of '
+             'the behaviour that explains each recorded trace of the real operator (seeded random scenarios of profile finalizer; every '
+             'PATCH is compared with the specification\'s server object field by field, virtual time is bound by urgency).',
+        note='one object, one operator at a time; handlers are coroutines with scripted outcomes; sub-handlers, handler timeouts and '
+             'on.event results are not yet in the model; known findings are excused only through the family predicates of Handling.tla',
+        ref='DESIGN.md 4/C06'),
+    'C07': dict(
+        technique='explicit TLA+ model of the closed loop of one object (Handling.tla) checked exhaustively with TLC; traces of the real '
+                  'kopf.operator() in the world simulator validated by TLC against the specification (Trace_Handling.tla)',
+        text="FreshOrTimedOut (a change handler runs on a view at least as new as the worker's own last patch, or after the consistency timeout since it); worker locals expected_version/consistency_time are bound from the q.proc.begin hook; echo delays are produced by holding watch lines" ' -- checked by TLC on Handling.tla for every interleaving of the bounded configurations, and on every state of '
+             'the behaviour that explains each recorded trace of the real operator (seeded random scenarios of profile consistency; every '
+             'PATCH is compared with the specification\'s server object field by field, virtual time is bound by urgency).',
+        note='one object, one operator at a time; handlers are coroutines with scripted outcomes; sub-handlers, handler timeouts and '
+             'on.event results are not yet in the model; known findings are excused only through the family predicates of Handling.tla',
+        ref='DESIGN.md 4/C07'),
+    'C11': dict(
+        technique='explicit TLA+ model of the closed loop of one object (Handling.tla) checked exhaustively with TLC; traces of the real '
+                  'kopf.operator() in the world simulator validated by TLC against the specification (Trace_Handling.tla)',
+        text='retry numbering, delays (a handler is never invoked before its recorded delay), permanence, ignored mode and the retries limit for change handlers incl. across kills/restarts (RetriesBounded, InvokeGoverned); records after every PATCH are compared field by field' ' -- checked by TLC on Handling.tla for every interleaving of the bounded configurations, and on every state of '
+             'the behaviour that explains each recorded trace of the real operator (seeded random scenarios of profile errors; every '
+             'PATCH is compared with the specification\'s server object field by field, virtual time is bound by urgency).',
+        note='one object, one operator at a time; handlers are coroutines with scripted outcomes; sub-handlers, handler timeouts and '
+             'on.event results are not yet in the model; known findings are excused only through the family predicates of Handling.tla',
+        ref='DESIGN.md 4/C11'),
+    'C14': dict(
+        technique='explicit TLA+ model of the closed loop of one object (Handling.tla) checked exhaustively with TLC; traces of the real '
+                  'kopf.operator() in the world simulator validated by TLC against the specification (Trace_Handling.tla)',
+        text='ResumeOnce per process (modulo the stale-view door), resume handlers mixed into update/delete causes, re-listings (410) and restarts' ' -- checked by TLC on Handling.tla for every interleaving of the bounded configurations, and on every state of '
+             'the behaviour that explains each recorded trace of the real operator (seeded random scenarios of profile resume; every '
+             'PATCH is compared with the specification\'s server object field by field, virtual time is bound by urgency).',
+        note='one object, one operator at a time; handlers are coroutines with scripted outcomes; sub-handlers, handler timeouts and '
+             'on.event results are not yet in the model; known findings are excused only through the family predicates of Handling.tla',
+        ref='DESIGN.md 4/C14'),
     'C01': dict(
         technique='explicit TLA+ model of the multiplexer (Queueing.tla) checked exhaustively with TLC incl. liveness; traces of the '
                   'real watcher/worker/scheduler (q.* hooks) recorded under a virtual clock and validated by TLC against the spec '
